@@ -189,6 +189,13 @@ class RenderHarness(Harness):
         return True
 
     # ---- violations ------------------------------------------------------------------------------------------------------
+    def on_panic(self, ctx, ex, e, res):
+        """a reachable panic edge of the writer: formatting does not terminate normally"""
+        m = ctx.model()
+        for pid in ('C03', 'C12'):
+            ctx.violations.append({'law': pid + '.writing-the-blocks-does-not-panic', 'model': m,
+                                   'info': {'msg': res['detail'], 'where': res.get('where'), 'input': getattr(ctx, 'input_desc', None)}})
+
     def finish_violation(self, ctx, v):
         tree = getattr(ctx, 'tree', [])
         v['role'] = role_of(tree, v['info'])
@@ -202,6 +209,9 @@ class RenderHarness(Harness):
         res = driver.run(script, timeout=120)
         v['replay_script'], v['replay_result'] = script, res
         last = res[-1]
+        if v['law'].endswith('writing-the-blocks-does-not-panic'):
+            v['replay_verdict'] = 'native: %s' % str(last)[:200]
+            return isinstance(last, dict) and ('panic' in last or 'crash' in last)
         if not (isinstance(last, dict) and 'blocks' in last):
             v['replay_verdict'] = 'native: %s' % str(last)[:200]
             return False
